@@ -43,22 +43,25 @@ def gen_cases(rng, tier, escalate=False):
 def evaluate(cases, result, tier):
     known = {k["key"] for k in vlib.known_findings(PID)}
 
-    def classify(i, fails):
-        if i not in fails.get("nothole", []):
-            return sc.KNOWN_HOLE if sc.KNOWN_HOLE in known else None
-        if i not in fails.get("unexplained", []):
+    def classify(i, fails, history_shows_hole):
+        if i not in fails.get("auxnothole", []):
+            # recognised hole shape; a failure that is only in the host's log (a lost iteration that came back is visited
+            # twice, a vanished value was visited) needs a lost iteration in the same history as evidence
+            if i in fails.get("auxcover", []) or history_shows_hole:
+                return sc.KNOWN_HOLE if sc.KNOWN_HOLE in known else None
+            return None
+        if i not in fails.get("auxunexplained", []) and i in fails.get("auxcover", []):
             return KNOWN_SECOND if KNOWN_SECOND in known else None
         return None
 
-    before = len(result["oracle_fail"])
-    outs = sc.evaluate(PID, cases, result,
-                       {"model": "check_case", "oracle": "c13_oracle", "nothole": "c13_not_hole", "unexplained": "c13_unexplained"},
-                       nontrivial=lambda inf, cl: inf.get("canons", 0) > 0 or (inf.get("folds", 0) > 0 and inf.get("lore", 0) > 0),
-                       classify=classify)
-    # a dropped call result (code 30000) in an honest history must come with a recognised cursor-hole failure of the same history
-    holed = {id(f["case"]) for f in result["oracle_fail"][before:] if f.get("key") == sc.KNOWN_HOLE}
-    for c, o in zip(cases, outs or []):
-        if o and o.get("unprocessed_results") and id(c) not in holed and not c.get("limit"):
+    outs, tainted = sc.evaluate(PID, cases, result,
+                                {"model": "check_case", "oracle": "c13_oracle", "auxnothole": "c13_not_hole", "auxunexplained": "c13_unexplained",
+                                 "auxcover": "c13_cover_ok"},
+                                nontrivial=lambda inf, cl: inf.get("canons", 0) > 0 or (inf.get("folds", 0) > 0 and inf.get("lore", 0) > 0),
+                                classify=classify)
+    # a dropped call result (code 30000) in an honest history must come with a lost fold iteration of the recognised shape
+    for ci, (c, o) in enumerate(zip(cases, outs)):
+        if o and o.get("unprocessed_results") and ci not in tainted and not c.get("limit"):
             result["oracle_fail"].append({"case": c, "key": None, "script": o.get("script"), "detail": o["unprocessed_results"][:3],
-                                          "what": "a run dropped a returned call result (code 30000) in an honest history that shows no "
-                                                  "recognised cursor-hole failure: a visit/pre call of a fold iteration was lost"})
+                                          "what": "a run dropped a returned call result (code 30000) in an honest history in which no fold "
+                                                  "iteration was lost in the recognised cursor-hole shape: a pre/visit call of a fold body was lost"})
